@@ -53,7 +53,7 @@ func TestC14(t *testing.T) {
 				span = m.n()
 			}
 			for nh := 1; nh <= 3; nh++ {
-				if mi >= 10 && rng.Intn(3) != 0 {
+				if mi >= 12 && rng.Intn(3) != 0 {
 					continue
 				}
 				mon.Emit(r, "handlers", c14P{Mix: m, Side: side, Handlers: nh, Fail: "none"}, "handlers")
